@@ -146,7 +146,7 @@ def n_of_bizda(y, m, bd):
     return None
 
 
-def add_bdays(n, k):
+def add_bdays_slow(n, k):
     """k-th Mon-Fri day strictly after (k>0) / before (k<0) n, by counting"""
     step = 1 if k > 0 else -1
     k = abs(k)
@@ -157,11 +157,36 @@ def add_bdays(n, k):
     return n
 
 
+_CUM = None
+
+
+def _cum():
+    """_CUM[x] = number of Mon-Fri days in 1..x, built once by counting"""
+    global _CUM
+    if _CUM is None:
+        import itertools
+        _CUM = [0] + list(itertools.accumulate(1 if is_bday(x) else 0 for x in range(1, NMAX + 400)))
+    return _CUM
+
+
+def add_bdays(n, k):
+    """k-th Mon-Fri day strictly after (k>0) / before (k<0) n: position of the
+    (count(<=n)+k)-th resp. (count(<n)+k+1)-th Mon-Fri day in the counted table"""
+    import bisect
+    c = _cum()
+    if k > 0:
+        t = c[n] + k
+    else:
+        t = c[n - 1] + k + 1
+    if t < 1:
+        raise ValueError("out of range")
+    return bisect.bisect_left(c, t)
+
+
 def bdays_between(a, b):
     """number of Mon-Fri days in (a, b] for a<=b, negated for b<a"""
-    if a <= b:
-        return sum(1 for x in range(a + 1, b + 1) if is_bday(x))
-    return -sum(1 for x in range(b + 1, a + 1) if is_bday(x))
+    c = _cum()
+    return c[b] - c[a]
 
 
 def add_months(y, m, d, k):
